@@ -20,30 +20,45 @@ class Truncated(Exception):
 
 
 class _W:
+    """LSB-first bit writer; amortised O(1) per push (whole bytes are flushed out of a small accumulator)."""
+
     def __init__(self) -> None:
-        self.val = 0
+        self.chunks: List[bytes] = []
+        self.acc = 0
+        self.nacc = 0
         self.bits = 0
         self.ann: List[Tuple[str, str, int, int]] = []  # (kind, path, offset, width)
 
     def push(self, word: int, n: int, kind: str, path: str) -> None:
         self.ann.append((kind, path, self.bits, n))
-        self.val |= (word & ((1 << n) - 1)) << self.bits
+        self.acc |= (word & ((1 << n) - 1)) << self.nacc
+        self.nacc += n
         self.bits += n
+        if self.nacc >= 512:
+            nb = self.nacc // 8
+            self.chunks.append((self.acc & ((1 << (8 * nb)) - 1)).to_bytes(nb, "little"))
+            self.acc >>= 8 * nb
+            self.nacc -= 8 * nb
 
     def bytes(self) -> bytes:
-        return self.val.to_bytes((self.bits + 7) // 8, "little")
+        tail = self.acc.to_bytes((self.nacc + 7) // 8, "little")
+        return b"".join(self.chunks) + tail
 
 
 class _R:
+    """LSB-first bit reader over the input bytes; O(width) per read."""
+
     def __init__(self, data: bytes) -> None:
-        self.val = int.from_bytes(bytes(data), "little")
-        self.total = 8 * len(data)
+        self.data = bytes(data)
+        self.total = 8 * len(self.data)
         self.pos = 0
 
     def read(self, n: int) -> int:
         if self.pos + n > self.total:
             raise Truncated(f"need {n} bits at {self.pos}, have {self.total}")
-        v = (self.val >> self.pos) & ((1 << n) - 1)
+        b0 = self.pos >> 3
+        b1 = (self.pos + n + 7) >> 3
+        v = (int.from_bytes(self.data[b0:b1], "little") >> (self.pos & 7)) & ((1 << n) - 1)
         self.pos += n
         return v
 
